@@ -699,6 +699,13 @@ def oracle_c04(ctx):
         if k != 'ok' or bad:
             res.violation('field value bytes differ from the reference', {'fn': 'c04_value_case', 'args': pyrepr((v, legacy))},
                           bad[0] if k == 'ok' else 'reference runs', bad[1] if k == 'ok' else repr(bad))
+    for typecode, items in [('H', [1, 2, 3]), ('I', [0xCE, 2 ** 32 - 1]), ('Q', list(range(12))), ('B', list(range(48)))]:
+        for as_view in (True, False, 'matrix', 'ctypes'):
+            res.case('bodyarr %s %d %s' % (typecode, len(items), as_view), tag='body given as a buffer of wider items')
+            k, bad = catching(c10_frame_case, 'bodyarr', (typecode, items, as_view), 1)
+            if k != 'ok' or bad:
+                res.violation('body frame of a buffer of %s items is not the envelope around its octets' % typecode,
+                              {'fn': 'c10_frame_case', 'args': pyrepr(('bodyarr', (typecode, items, as_view), 1))}, bad[0] if k == 'ok' else 'oracle runs', bad[1] if k == 'ok' else repr(bad))
     # names longer than 128 characters are cut to exactly their first 128 characters, whatever stands at the cut: a combining
     # mark, the second half of a pair, a character outside the BMP, white space, a format character
     for at_cut in ['e\u0301', '\u0301\u0301', 'a\u200d', '\U0001f600', '\U0001f1e9\U0001f1ea', ' x', '\u00adx', 'x\ufe0f', '\u1100\u1161', 'ab']:
@@ -3764,8 +3771,36 @@ def c16_failures_case(kind, arg):
     return None
 
 
+@replayer
+def c16_decimal_scale_case(pairs):
+    """field values decoded one after the other in one process: each Decimal has exactly the scale and digits of its own bytes"""
+    for scale, unscaled in pairs:
+        data = b'D' + bytes([scale]) + struct.pack('>i', unscaled)
+        for wrap in (lambda d: d, lambda d: b'F' + struct.pack('>I', len(d) + 2) + b'\x01k' + d, lambda d: b'A' + struct.pack('>I', len(d)) + d):
+            k, r = catching(decode.embedded_value, wrap(data))
+            if k != 'ok':
+                return ('decodes', repr(r))
+            v = r[1]
+            while isinstance(v, (dict, list)):
+                v = v['k'] if isinstance(v, dict) else v[0]
+            want = D((1 if unscaled < 0 else 0, tuple(int(c_) for c_ in str(abs(unscaled))), -scale))
+            if not isinstance(v, D) or v.as_tuple() != want.as_tuple():
+                return ('D scale %d unscaled %d decodes to %r' % (scale, unscaled, want), repr(v))
+            k2, b2 = catching(encode.encode_table_value, v)
+            if k2 != 'ok' or b2 != data:
+                return ('re-encoding gives the same 6 octets %s' % data.hex(), b2.hex() if k2 == 'ok' else repr(b2))
+    return None
+
+
 def c16_traces(ctx, res):
     C = commands
+    for pairs in ([(1, 10), (2, 100), (0, 1), (3, 1000), (1, 10)], [(0, 5), (3, 5000), (1, 50)], [(2, 150), (1, 15), (3, 1500), (2, 150)],
+                  [(0, 0), (2, 0), (5, 0), (0, 0)], [(1, -10), (2, -100), (0, -1)]):
+        res.case('decimal scales %r' % (pairs,), tag='equal decimals of different scale')
+        k, bad = catching(c16_decimal_scale_case, pairs)
+        if k != 'ok' or bad:
+            res.violation('a Decimal decoded after an equal one of another scale', {'fn': 'c16_decimal_scale_case', 'args': pyrepr((pairs,))},
+                          bad[0] if k == 'ok' else 'oracle runs', bad[1] if k == 'ok' else repr(bad))
     fails = [('unmarshal', b'\x01\x00\x01\x00\x00\x00\x10\x00'), ('unmarshal', b'\x01\x00\x01\x00\x00'), ('unmarshal', b'\x08\x00\x00\x00\x00\x00\x00\x00'),
              ('unmarshal', b'\x03\x00\x01\x00\x00\x00\x01ab'), ('unmarshal', b'\x01\x00\x01\x00\x00\x00\x04\xff\xff\xff\xff\xce'),
              ('unmarshal', b'AMQP\x00'), ('unmarshal', b''), ('encvalue', 2 ** 70), ('encvalue', b'raw'), ('encvalue', {'k': object()}), ('decvalue', b'Z'),
@@ -4041,7 +4076,83 @@ json.dump(out, sys.stdout)
 """
 
 
+C16_RACE_CHILD = r"""
+import sys, json, os, threading
+sys.path.insert(0, os.environ['PAMQP_REPO'])
+sys.setswitchinterval(1e-6)
+from pamqp import frame, commands, header, body
+import datetime
+C = commands
+ts = datetime.datetime(2024, 1, 2, tzinfo=datetime.timezone.utc)
+corpus = [header.ContentHeader(0, 5, C.Basic.Properties(content_type='a', content_encoding='b', headers={'k': 1}, delivery_mode=2, priority=1, correlation_id='c',
+                                                         reply_to='r', expiration='e', message_id='m', timestamp=ts, message_type='t', user_id='u', app_id='p')),
+          C.Queue.Declare(0, 'q', False, True, False, False, False, {'a': 40000}), C.Basic.Publish(0, 'x', 'rk', True, False), C.Connection.Tune(1, 2, 3),
+          C.Basic.Deliver('ct', 7, True, 'ex', 'rk'), body.ContentBody(b'abc')]
+wire = []
+import struct
+def enc(f):
+    return frame.marshal(f, 1)
+n_threads = 8
+barrier = threading.Barrier(n_threads)
+results = [None] * n_threads
+# the wire forms are built by hand-free means only inside the threads: the very first encode AND decode of each kind race
+def show(g):
+    if hasattr(g, 'properties'):
+        return [type(g).__name__, g.body_size, sorted((k, repr(v)) for k, v in dict(g.properties).items())]
+    if hasattr(type(g), 'index'):
+        return [g.name, [(k, repr(v)) for k, v in g]]
+    return [type(g).__name__, repr(getattr(g, 'value', None))]
+def work(i):
+    barrier.wait()
+    out = []
+    for f in corpus:
+        try:
+            b = enc(f)
+            out.append([b.hex(), show(frame.unmarshal(b)[2])])
+        except Exception as e:
+            out.append(['err ' + type(e).__name__, None])
+    results[i] = out
+ths = [threading.Thread(target=work, args=(i,)) for i in range(n_threads)]
+for t in ths: t.start()
+for t in ths: t.join()
+after = []
+for f in corpus:
+    try:
+        b = enc(f)
+        after.append([b.hex(), show(frame.unmarshal(b)[2])])
+    except Exception as e:
+        after.append(['err ' + type(e).__name__, None])
+json.dump({'threads': results, 'after': after}, sys.stdout)
+"""
+
+
+@replayer
+def c16_race_case(attempts):
+    """in a fresh interpreter the very first encodes and decodes of several frame kinds happen in eight threads at once; every
+    thread, and a sequential pass afterwards, must give what a plain sequential interpreter gives"""
+    env = dict(os.environ, PAMQP_REPO=real.REPO, PYTHONDONTWRITEBYTECODE='1')
+    base = None
+    for a in range(attempts):
+        p = subprocess.run([sys.executable, '-B', '-c', C16_RACE_CHILD], stdout=subprocess.PIPE, stderr=subprocess.PIPE, env=env, timeout=120)
+        if p.returncode != 0:
+            return ('child runs', p.stderr.decode('utf-8', 'replace')[-300:])
+        r = json.loads(p.stdout)
+        base = base or r['after']
+        for i, t in enumerate(r['threads']):
+            if t != r['after'] or t != base:
+                j = next(j for j in range(len(t)) if t[j] != base[j]) if t != base else 0
+                return ('attempt %d thread %d frame %d: %s' % (a, i, j, json.dumps(base[j])[:200]), json.dumps(t[j])[:200])
+        if r['after'] != base:
+            return ('the sequential pass after the threads', 'differs between attempts')
+    return None
+
+
 def c16_first_use(ctx, res):
+    res.case('concurrent first use', tag='first uses race')
+    k, bad = catching(c16_race_case, 12 if ctx.thorough else 4)
+    if k != 'ok' or bad:
+        res.violation('the first uses of a fresh interpreter, made concurrently, give different results', {'fn': 'c16_race_case', 'args': pyrepr((8,))},
+                      bad[0] if k == 'ok' else 'oracle runs', bad[1] if k == 'ok' else repr(bad))
     """the FIRST use of a class in a process fails (a refused value / a payload cut short inside a complete envelope);
     the next, valid, use must give what it gives in any other process"""
     g = ctx.gen
